@@ -154,3 +154,41 @@ func VH_C17_scrape_race() {
 	c.stopConnection(k2)
 	verifReach("C17.scrape-race.done", true)
 }
+
+// one client reaches the server through sockets that report its address in different forms
+// (4-byte, IPv4-mapped 16-byte): it is one client, overlapping tunnels are counted once
+func VH_C17_client_identity() {
+	verifInstallClock(1 << 41)
+	m, _ := NewServiceMetrics(nil)
+	ip4 := net.IP{203, 0, 113, 5}
+	forms := []net.IP{ip4, ip4.To16()}
+	fa, fb := forms[verifChoice("form-a", 2)], forms[verifChoice("form-b", 2)]
+	a := m.AddOpenTCPConnection(&verifConn{remote: &net.TCPAddr{IP: fa, Port: 50000}, local: &net.TCPAddr{IP: net.IPv4(192, 0, 2, 1), Port: 443}})
+	a.AddAuthenticated("k1")
+	d1 := verifAdvance()
+	var b interface{ RemoveNatEntry() }
+	udp := verifFlag("second-is-udp")
+	var bt interface {
+		AddAuthenticated(string)
+	}
+	_ = bt
+	var closeB func()
+	if udp {
+		u := m.AddUDPNatEntry(&net.UDPAddr{IP: fb, Port: 40000}, "k1")
+		closeB = u.RemoveNatEntry
+	} else {
+		t := m.AddOpenTCPConnection(&verifConn{remote: &net.TCPAddr{IP: fb, Port: 50001}, local: &net.TCPAddr{IP: net.IPv4(192, 0, 2, 1), Port: 443}})
+		t.AddAuthenticated("k1")
+		closeB = func() { t.AddClosed("OK", metrics.ProxyMetrics{}, time.Second) }
+	}
+	_ = b
+	verifAssert("C17.identity.one-client", len(m.tunnelTimeMetrics.activeClients) == 1)
+	d2 := verifAdvance()
+	a.AddClosed("OK", metrics.ProxyMetrics{}, time.Second)
+	d3 := verifAdvance()
+	closeB()
+	verifAdvance()
+	m.tunnelTimeMetrics.Collect(make(chan prometheus_Metric, 16))
+	verifAssert("C17.identity.overlap-counted-once", verifEqNanos(verifCounterValue(m.tunnelTimeMetrics.tunnelTimePerKey, "ns", "k1"), d1+d2+d3))
+	verifReach("C17.identity.mixed-forms", len(fa) != len(fb))
+}
